@@ -69,12 +69,16 @@ def run_family(fam, prop, tier, seed, d=None, replay_ops=None):
         args += fam.get("replay_args", ["-n", 0])
     else:
         args += fam["exec_args"](tier, seed)
-    summ = vlib.vexec(binary, args, timeout=fam.get("exec_timeout", 3000), env={"GORACE": "exitcode=0"} if race else None)
+    summ = vlib.vexec(binary, args, timeout=fam.get("exec_timeout", 3000), env={"GORACE": "exitcode=0"} if race else None,
+                      crash_is_race=race)
     res.summary = summ
     res.samples = [x[:400] for x in summ.get("samples", [])[:6]]
-    if race and "DATA RACE" in summ.get("_stderr", ""):
+    if race and (summ.get("_crashed") or "DATA RACE" in summ.get("_stderr", "")):
         res.extra["race_report"] = summ["_stderr"][-3000:]
     # 4. trace validation by TLC
+    if summ.get("_crashed"):
+        for f in glob.glob(prefix + ".*.ndjson"):   # the process died mid-write: its partial traces are not judged
+            os.remove(f)
     shards = sorted(glob.glob(prefix + ".*.ndjson"))
     vr = vlib.validate_traces(d, fam["trace_module"], fam["trace_cfg"], shards,
                               timeout=fam.get("validate_timeout", 1800), deque=fam.get("deque", False))
@@ -382,9 +386,12 @@ def run_c08(prop, tier, seed):
     sprefix = os.path.join(d, "stress")
     nstress = 60 if tier == "quick" else 1500
     ssum = vlib.vexec(racebin, ["scstress", "-seed", seed, "-n", nstress, "-out", sprefix, "-shards", 4], timeout=3000,
-                      env={"GORACE": "exitcode=0"})
-    if "DATA RACE" in ssum.get("_stderr", ""):
+                      env={"GORACE": "exitcode=0"}, crash_is_race=True)
+    if ssum.get("_crashed") or "DATA RACE" in ssum.get("_stderr", ""):
         res.extra["race_report"] = ssum["_stderr"][-4000:]
+    if ssum.get("_crashed"):
+        for f in glob.glob(sprefix + ".*.ndjson"):   # the process died mid-write: its partial traces are not judged
+            os.remove(f)
     shards = sorted(glob.glob(prefix + ".*.ndjson")) + sorted(glob.glob(sprefix + ".*.ndjson"))
     vr = vlib.validate_traces(d, "StateCacheSchedTrace", "StateCacheSchedTrace.cfg", shards, timeout=1800)
     for r in vr:
@@ -537,9 +544,12 @@ def run_c16(prop, tier, seed):
     prefix = os.path.join(d, "trace")
     n, nm = (250, 120) if tier == "quick" else (8000, 3000)
     summ = vlib.vexec(racebin, ["conc", "-seed", seed, "-n", n, "-nmissing", nm, "-out", prefix, "-shards", 12], timeout=3000,
-                      env={"GORACE": "exitcode=0"})
-    if "DATA RACE" in summ.get("_stderr", ""):
+                      env={"GORACE": "exitcode=0"}, crash_is_race=True)
+    if summ.get("_crashed") or "DATA RACE" in summ.get("_stderr", ""):
         res.extra["race_report"] = summ["_stderr"][-6000:]
+    if summ.get("_crashed"):
+        for f in glob.glob(prefix + ".*.ndjson"):   # the process died mid-write: its partial traces are not judged
+            os.remove(f)
     shards = sorted(glob.glob(prefix + ".*.ndjson"))
     vr = vlib.validate_traces(d, "MPTConc", "MPTConc.cfg", shards, timeout=1800, deque=True)
     consumed = 0
